@@ -4,8 +4,10 @@
 #![allow(dead_code, unused_imports, clippy::all)]
 
 pub mod capture;
+pub mod mk;
 pub mod util;
 
+pub mod c07;
 pub mod c10;
 
 use util::Args;
@@ -19,6 +21,7 @@ pub fn main(argv: &[String]) -> i32 {
   }
   let args = Args::parse(&argv[1..]);
   match argv[0].as_str() {
+    "c07" => c07::run(&args),
     "c10" => c10::run(&args),
     other => {
       eprintln!("unknown property driver {other}");
